@@ -3613,10 +3613,13 @@ C20_ARRAY_ENTRIES = [
     ("oqupy/system.py", "SystemChain.get_nn_full_liouvillians", "self._site_liouvillians[*]", None),
     ("oqupy/mps_mpo.py", "compute_nn_gate", "liouvillian", None),
     ("oqupy/mps_mpo.py", "compute_trotter_layers", "nn_full_liouvillians", "liouv"),
+    # the caller's list of times (object 0 is the list: `x[i] = ..` on it is a write)
+    ("oqupy/system_dynamics.py", "compute_correlations_nt", "ops_times", None),
 ]
 
 # entry functions that may leave the array alone altogether (it is only read)
-C20_MAY_BE_UNTOUCHED = {("oqupy/mps_mpo.py", "compute_nn_gate"),
+C20_MAY_BE_UNTOUCHED = {("oqupy/system_dynamics.py", "compute_correlations_nt"),
+                        ("oqupy/mps_mpo.py", "compute_nn_gate"),
                         ("oqupy/mps_mpo.py", "compute_trotter_layers")}
 
 # public functions whose returned arrays must be new objects on every call
@@ -5543,6 +5546,17 @@ def _ff_import_copy(src, out):
     if any(isinstance(n, ast.Call) and attr_chain(n.func) == ["pt", "compute_caps"]
            for n in ast.walk(fn)):
         copies = "false"
+    body = _ff_body(fn)
+    first = ast.unparse(body[0]) if body else ""
+    opens_first = first in ("pt_file = FileProcessTensor(mode='read', filename=filename)",
+                            "pt_file = FileProcessTensor('read', filename)",
+                            "pt_file = FileProcessTensor(mode='read', filename=filename)")
+    returns_before = False
+    out.append("/-- %s:%d  import_process_tensor: its first statement is `%s` — every call opens "
+               "the file through FileProcessTensor(mode='read') (and hence _read_file) before "
+               "anything else can return -/\ndef importOpensFirst : Bool := %s\n"
+               % (FF_REL, fn.lineno, " ".join(first.split())[:120].replace("-/", "- /"),
+                  "true" if opens_first else "false"))
     out.append("/-- %s:%d  import_process_tensor, 'simple': `pt.set_mpo_tensor(%s, %s)`; caps copied "
                "with get_cap_tensor/set_cap_tensor: %s -/\n"
                "def importMpoTransformed : Bool := %s\ndef importCopiesCaps : Bool := %s\n"
@@ -5587,7 +5601,8 @@ def frag_fileflags(src):
                "    exportUnwind := exportUnwind, ptTempoUnwind := ptTempoUnwind,\n"
                "    writingAssignments := writingAssignments, computeCapsTail := computeCapsTail,\n"
                "    importMpoTransformed := importMpoTransformed, importCopiesCaps := importCopiesCaps,\n"
-               "    readWarnUnconditional := readWarnUnconditional, closeResetPure := closeResetPure }\n")
+               "    readWarnUnconditional := readWarnUnconditional, closeResetPure := closeResetPure,\n"
+               "    importOpensFirst := importOpensFirst }\n")
     return "\n".join(out)
 # end of FileFlags
 
@@ -6255,6 +6270,8 @@ TE_ALLOW_ASSIGN = {
      "times = np.array(self._control_times['pre'])[np.nonzero(a == step)]"),
     ("oqupy/control.py", "Control.get_controls",
      "times = np.array(self._control_times['post'])[np.nonzero(a == step)]"),
+    ("oqupy/control.py", "Control.get_controls", "times = self._control_times['pre'][a == step]"),
+    ("oqupy/control.py", "Control.get_controls", "times = self._control_times['post'][a == step]"),
     ("oqupy/system_dynamics.py", "compute_correlations_nt",
      "times = _parse_times(ops_times[i], max_step, dt_, start_time)"),
     ("oqupy/control.py", "Control.__init__",
@@ -6282,6 +6299,8 @@ def _te_varname(e):
             return "%s_%d" % (base, e.slice.value)
         if isinstance(e.slice, ast.Constant) and isinstance(e.slice.value, str):
             return base          # self._control_times['pre']  (elementwise)
+        if isinstance(e.slice, ast.Name) and base == "control_times":
+            return base          # self._control_times[pre_post]
         return None
     return None
 
@@ -6613,6 +6632,23 @@ def _te_scan(rel, qual, fn, inherited, sites):
             for kw in node.keywords:
                 if kw.arg in kws and not (isinstance(kw.value, ast.Constant) and kw.value.value is None):
                     add("%s_kw_%s" % ((cal or "call").lstrip("_"), kw.arg), kws[kw.arg], kw.value, node)
+        # --- closeness tests and truthiness of times ------------------------------------------
+        #  np.isclose(x, y) is |x - y| <= atol + rtol*|y|: its tolerance scales with the operands,
+        #  which therefore must not be absolute times;  `times.any()` compares with the absolute
+        #  value 0.0.  Both are collected as values that must be shift invariant.
+        if isinstance(node, ast.Call):
+            chn = attr_chain(node.func)
+            dotted = ".".join(chn) if chn else ""
+            if dotted in ("np.isclose", "np.allclose", "math.isclose") and len(node.args) >= 2:
+                for a in node.args[:2]:
+                    if _te_time_leaves(a, roles):
+                        add("isclose_scale", "D", a, node)
+            if isinstance(node.func, ast.Attribute) and node.func.attr in ("any", "all") \
+                    and not node.args and _te_time_leaves(node.func.value, roles):
+                add("truth_of_time", "D", node.func.value, node)
+        if isinstance(node, (ast.If, ast.While, ast.IfExp)) and _te_time_leaves(node.test, roles) \
+                and isinstance(node.test, (ast.Name, ast.Attribute, ast.Subscript)):
+            add("truth_of_time", "D", node.test, node)
         # --- dict literals that carry the parameters on -------------------------------
         if isinstance(node, ast.Dict):
             for k, v in zip(node.keys, node.values):
